@@ -167,6 +167,13 @@ class StickyImpl:
                         w.ev("read", s.label, tag, s.closed)
                     else:
                         obs.append(["read", None, None])
+                elif op == "D":
+                    # the operator's drain() lands while this request is already inside its method (admitted before the drain)
+                    cb = getattr(w, "on_drain", None)
+                    if cb is not None:
+                        cb()
+                        w.ev("drain-inside-method", tag)
+                    obs.append(["drained"])
                 elif op == "y":
                     w.yield_point(f"method.{tag}")
                 elif op == "x":
